@@ -692,3 +692,97 @@ Theorem C09_w16_instances :
   (forall by_ref cap r n, 0 <= n -> brepr_ok 16 r -> ubig_shl_form 16 by_ref cap r n = to_brepr 16 (Z.shiftl (bvalue 16 r) n)).
 Proof. exact w16_instances. Qed.
 Print Assumptions C09_w16_instances.
+
+(** round 5: the STRAIGHT-LINE bodies of shift_ops.rs / bits.rs / repr.rs regenerated from the Rust source on every run
+    (coq/gen/BitsBodiesGen.v, tools/translate_c09_r5.py), with `as u32` / `as usize` casts as explicit truncations and machine
+    shifts carrying their width, are equal to the hand-written models - for every word size w whose double word width fits a
+    u32 and the usize (widths_ok w uw := 0 < w /\ 2w < 2^32 /\ 2w < 2^uw) - and meet the specification directly *)
+From Dashu Require Import Int.BitsBodiesPrims Int.BitsBodiesGenProof Int.BitsBodiesGenSpec.
+From DashuGen Require Import BitsBodiesGen.
+
+Theorem C09_gen_shl_bodies : forall w uw, widths_ok w uw ->
+  (forall rhs, shl_one_spilled_gen w uw rhs = shl_one_spilled w rhs) /\
+  (forall d rhs, shl_dword_spilled_gen w uw d rhs = shl_dword_spilled w d rhs) /\
+  (forall d rhs, 0 < d < B w * B w -> 0 <= rhs -> shl_dword_gen w uw d rhs = shl_dword w d rhs) /\
+  (forall ws rhs, shl_large_ref_gen w uw ws rhs = shl_large_ref w ws rhs) /\
+  (forall cap buf rhs, shl_large_gen w uw cap buf rhs = shl_large w (negb (cap <? len buf + rhs / w + 1)) buf rhs).
+Proof. exact gen_shl_bodies. Qed.
+Print Assumptions C09_gen_shl_bodies.
+
+Theorem C09_gen_shr_bodies : forall w uw, widths_ok w uw ->
+  (forall d rhs, 0 <= rhs -> shr_dword_gen w uw d rhs = shr_dword w d rhs) /\
+  (forall buf rhs, shr_large_gen w uw buf rhs = shr_large w buf rhs) /\
+  (forall ws rhs, shr_large_ref_gen w uw ws rhs = shr_large_ref w ws rhs).
+Proof. exact gen_shr_bodies. Qed.
+Print Assumptions C09_gen_shr_bodies.
+
+Theorem C09_gen_bit_bodies : forall w uw, widths_ok w uw ->
+  (forall d n, with_bit_dword_spilled_gen w uw d n = with_bit_dword_spilled w d n) /\
+  (forall buf n, with_bit_large_gen w uw buf n = with_bit_large w buf n) /\
+  (forall buf n, clear_high_bits_large_gen w uw buf n = clear_high_bits_large w buf n) /\
+  (forall r n, 0 <= n -> typed_set_bit_gen w uw r n = repr_set_bit w r n) /\
+  (forall r n, 0 <= n -> typed_clear_bit_gen w uw r n = repr_clear_bit w r n) /\
+  (forall r n, 0 <= n -> typed_clear_high_bits_gen w uw r n = repr_clear_high_bits w r n) /\
+  (forall r n, 0 <= n -> typed_split_bits_gen w uw r n = repr_split_bits w r n).
+Proof. exact gen_bit_bodies. Qed.
+Print Assumptions C09_gen_bit_bodies.
+
+Theorem C09_gen_npt_ones_bodies : forall w uw, widths_ok w uw ->
+  (forall ws, ws <> nil -> next_power_of_two_large_gen w uw ws = next_power_of_two_large w ws) /\
+  (forall r, brepr_ok w r -> typed_next_power_of_two_gen w uw r = repr_next_power_of_two w r) /\
+  (forall n, 0 <= n -> repr_ones_gen w uw n = repr_ones w n).
+Proof. exact gen_npt_ones_bodies. Qed.
+Print Assumptions C09_gen_npt_ones_bodies.
+
+Theorem C09_gen_shift_bodies_spec : forall w uw, widths_ok w uw -> forall rhs, 0 <= rhs ->
+  (forall d, 0 < d < B w * B w ->
+     bvalue w (shl_dword_gen w uw d rhs) = Z.shiftl d rhs /\ brepr_ok w (shl_dword_gen w uw d rhs)) /\
+  (forall cap buf, wf w buf ->
+     bvalue w (shl_large_gen w uw cap buf rhs) = Z.shiftl (value w buf) rhs /\ brepr_ok w (shl_large_gen w uw cap buf rhs)) /\
+  (forall ws, wf w ws ->
+     bvalue w (shl_large_ref_gen w uw ws rhs) = Z.shiftl (value w ws) rhs /\ brepr_ok w (shl_large_ref_gen w uw ws rhs)) /\
+  (forall d, 0 <= d < B w * B w ->
+     bvalue w (shr_dword_gen w uw d rhs) = Z.shiftr d rhs /\ brepr_ok w (shr_dword_gen w uw d rhs)) /\
+  (forall buf, wf w buf ->
+     bvalue w (shr_large_gen w uw buf rhs) = Z.shiftr (value w buf) rhs /\ brepr_ok w (shr_large_gen w uw buf rhs)) /\
+  (forall ws, wf w ws ->
+     bvalue w (shr_large_ref_gen w uw ws rhs) = Z.shiftr (value w ws) rhs /\ brepr_ok w (shr_large_ref_gen w uw ws rhs)).
+Proof. exact gen_shift_bodies_spec. Qed.
+Print Assumptions C09_gen_shift_bodies_spec.
+
+Theorem C09_gen_bit_bodies_spec : forall w uw, widths_ok w uw -> forall r n, 0 <= n -> brepr_ok w r ->
+  (bvalue w (typed_set_bit_gen w uw r n) = set_bit_spec (bvalue w r) n /\ brepr_ok w (typed_set_bit_gen w uw r n)) /\
+  (bvalue w (typed_clear_bit_gen w uw r n) = clear_bit_spec (bvalue w r) n /\ brepr_ok w (typed_clear_bit_gen w uw r n)) /\
+  (bvalue w (typed_clear_high_bits_gen w uw r n) = clear_high_bits_spec (bvalue w r) n /\
+     brepr_ok w (typed_clear_high_bits_gen w uw r n)) /\
+  (let '(lo, hi) := typed_split_bits_gen w uw r n in
+     (bvalue w lo, bvalue w hi) = split_bits_spec (bvalue w r) n /\ brepr_ok w lo /\ brepr_ok w hi) /\
+  (bvalue w (typed_next_power_of_two_gen w uw r) = next_power_of_two_spec (bvalue w r) /\
+     brepr_ok w (typed_next_power_of_two_gen w uw r)) /\
+  (bvalue w (repr_ones_gen w uw n) = ones_spec n /\ brepr_ok w (repr_ones_gen w uw n)).
+Proof. exact gen_bit_bodies_spec. Qed.
+Print Assumptions C09_gen_bit_bodies_spec.
+
+(** the seeded change of round 4 (shift count of shr_dword truncated to 32 bits) as a definition: a different function *)
+Theorem C09_shr_dword_trunc32_refuted : shr_dword_trunc32 64 5 (2 ^ 32) <> shr_dword 64 5 (2 ^ 32).
+Proof. exact shr_dword_trunc32_refuted. Qed.
+Print Assumptions C09_shr_dword_trunc32_refuted.
+
+Theorem C09_gen_ref_bodies : forall w uw, widths_ok w uw ->
+  (forall r n, 0 <= n -> ref_bit_gen w uw r n = repr_bit w r n) /\
+  (forall r, brepr_ok w r -> ref_bit_len_gen w uw r = repr_bit_len w r) /\
+  (forall d n, 0 <= n -> are_dword_low_bits_nonzero_gen w uw d n = dword_low_bits_nonzero w d n) /\
+  (forall r n, 0 <= n -> ref_are_low_bits_nonzero_gen w uw r n = are_low_bits_nonzero w r n).
+Proof. exact gen_ref_bodies. Qed.
+Print Assumptions C09_gen_ref_bodies.
+
+From Dashu Require Import Int.BitsBodiesGenProof2.
+Theorem C09_gen_ref_bodies2 : forall w uw, widths_ok w uw ->
+  (forall r, ref_is_power_of_two_gen w uw r = repr_is_power_of_two r) /\
+  (forall r, brepr_ok w r -> ref_trailing_zeros_gen w uw r = repr_trailing_zeros w r) /\
+  (forall r, brepr_ok w r -> ref_trailing_ones_gen w uw r = repr_trailing_ones w r) /\
+  (forall r, ref_trailing_ones_neg_gen w uw r = repr_trailing_ones_neg w r) /\
+  (forall r, brepr_ok w r -> ref_count_ones_gen w uw r = repr_count_ones r) /\
+  (forall r, brepr_ok w r -> ref_count_zeros_gen w uw r = repr_count_zeros w r).
+Proof. exact gen_ref_bodies2. Qed.
+Print Assumptions C09_gen_ref_bodies2.
